@@ -33,39 +33,39 @@ type Event struct {
 
 // World is everything of one run.
 type World struct {
-	Grid    time.Duration
-	Net     *Net
-	ev      int64
-	Hist    []Event
-	Nodes   []*Node
-	Viol    []Violation
-	Probes  map[string]int // "rare condition was hit" counters and other measured counts
-	Evals   map[string]int // oracle evaluation counts
-	Calls   []*CallRec
-	callTag map[string]*CallRec
-	Family  string
-	Sample  []string // human-readable description of the scenario (for evidence samples)
-	NoFault bool     // fault-free run class: relaxed oracles are off
-	NoPoison bool
-	wireOr  *wireOracle
+	Grid           time.Duration
+	Net            *Net
+	ev             int64
+	Hist           []Event
+	Nodes          []*Node
+	Viol           []Violation
+	Probes         map[string]int // "rare condition was hit" counters and other measured counts
+	Evals          map[string]int // oracle evaluation counts
+	Calls          []*CallRec
+	callTag        map[string]*CallRec
+	Family         string
+	Sample         []string // human-readable description of the scenario (for evidence samples)
+	NoFault        bool     // fault-free run class: relaxed oracles are off
+	NoPoison       bool
+	wireOr         *wireOracle
 	QuiesceStarted bool
-	cfg     RunSpec
-	linkHook func(l *Link)
+	cfg            RunSpec
+	linkHook       func(l *Link)
 	// PingSendFailed: some connection was given up because a ping/pong could not be queued
 	PingSendFailed bool
 	// mustLeave (C16): node/host:port pairs whose peer was dropped from its only list while connected
 	mustLeave map[string]bool
 	// PeriodicTraffic: the scenario has traffic that never ceases (health checks); settle periods are not extended
 	PeriodicTraffic bool
-	AllClosed bool
-	seenListed map[string]bool
-	corruptID   uint32
-	corruptLink *Link
-	corruptDir  int
-	corruptFrame *TapFrame
-	timingChecked bool
-	corruptPlanned bool
-	RawPeers []*RawPeer
+	AllClosed       bool
+	seenListed      map[string]bool
+	corruptID       uint32
+	corruptLink     *Link
+	corruptDir      int
+	corruptFrame    *TapFrame
+	timingChecked   bool
+	corruptPlanned  bool
+	RawPeers        []*RawPeer
 }
 
 func newWorld(spec RunSpec) *World {
@@ -96,16 +96,18 @@ func (w *World) violate(prop, rule, format string, a ...interface{}) {
 	w.event("VIOLATION", "%s/%s: %s", prop, rule, d)
 }
 
-func (w *World) probe(name string)          { w.Probes[name]++ }
-func (w *World) eval(name string)           { w.Evals[name]++ }
-func (w *World) describe(f string, a ...interface{}) { w.Sample = append(w.Sample, fmt.Sprintf(f, a...)) }
+func (w *World) probe(name string) { w.Probes[name]++ }
+func (w *World) eval(name string)  { w.Evals[name]++ }
+func (w *World) describe(f string, a ...interface{}) {
+	w.Sample = append(w.Sample, fmt.Sprintf(f, a...))
+}
 
 // ---- decision helpers (scenario stream) ----
 
-func scn(n int) int              { return simrt.Draw(simrt.StrScn, n) }
+func scn(n int) int               { return simrt.Draw(simrt.StrScn, n) }
 func scnChance(num, den int) bool { return simrt.Chance(simrt.StrScn, num, den) }
 func scnPick(xs ...int) int       { return xs[scn(len(xs))] }
-func app(n int) int              { return simrt.Draw(simrt.StrApp, n) }
+func app(n int) int               { return simrt.Draw(simrt.StrApp, n) }
 
 // ---- logger ----
 
@@ -162,14 +164,14 @@ func (l *memLogger) fieldStr() string {
 	}
 	return sb.String()
 }
-func (l *memLogger) Fatal(msg string)                         { l.log("F", msg) }
-func (l *memLogger) Error(msg string)                         { l.log("E", msg) }
-func (l *memLogger) Warn(msg string)                          { l.log("W", msg) }
-func (l *memLogger) Infof(msg string, args ...interface{})    { l.log("I", msg) }
-func (l *memLogger) Info(msg string)                          { l.log("I", msg) }
-func (l *memLogger) Debugf(msg string, args ...interface{})   {}
-func (l *memLogger) Debug(msg string)                         {}
-func (l *memLogger) Fields() tchannel.LogFields               { return l.fields }
+func (l *memLogger) Fatal(msg string)                       { l.log("F", msg) }
+func (l *memLogger) Error(msg string)                       { l.log("E", msg) }
+func (l *memLogger) Warn(msg string)                        { l.log("W", msg) }
+func (l *memLogger) Infof(msg string, args ...interface{})  { l.log("I", msg) }
+func (l *memLogger) Info(msg string)                        { l.log("I", msg) }
+func (l *memLogger) Debugf(msg string, args ...interface{}) {}
+func (l *memLogger) Debug(msg string)                       {}
+func (l *memLogger) Fields() tchannel.LogFields             { return l.fields }
 func (l *memLogger) WithFields(fs ...tchannel.LogField) tchannel.Logger {
 	nf := make(tchannel.LogFields, 0, len(l.fields)+len(fs))
 	nf = append(nf, l.fields...)
@@ -289,22 +291,22 @@ func shortFunc(s string) string {
 
 // NodeOpts are the per-node configuration knobs of a scenario.
 type NodeOpts struct {
-	Name        string
-	Service     string
-	Host        string // ip
-	Port        int    // 0 = client only (no listener)
-	Conn        tchannel.ConnectionOptions
-	Relay       tchannel.RelayHost
-	RelayMaxTimeout time.Duration
-	RelayMaxTombs   uint64
-	RelayTimerVerify bool
-	RelayLocal  []string
+	Name                  string
+	Service               string
+	Host                  string // ip
+	Port                  int    // 0 = client only (no listener)
+	Conn                  tchannel.ConnectionOptions
+	Relay                 tchannel.RelayHost
+	RelayMaxTimeout       time.Duration
+	RelayMaxTombs         uint64
+	RelayTimerVerify      bool
+	RelayLocal            []string
 	MaxIdle, IdleInterval time.Duration
-	PayCap      int
-	PoolReuse   bool
-	OnPeerStatus func(*tchannel.Peer)
-	Handler     tchannel.Handler // optional channel-level handler override
-	Tracer      opentracing.Tracer
+	PayCap                int
+	PoolReuse             bool
+	OnPeerStatus          func(*tchannel.Peer)
+	Handler               tchannel.Handler // optional channel-level handler override
+	Tracer                opentracing.Tracer
 }
 
 // Node is one real channel of the library under test.
@@ -321,13 +323,13 @@ type Node struct {
 	LogMsgs  map[string]int // warn/error messages seen
 	// ErrOnClosedConn: message ids for which the library logged that it could not send an error
 	// frame because the connection was already closed
-	ErrOnClosedConn map[uint32]int
-	Opts     NodeOpts
-	States   []tchannel.ChannelState
+	ErrOnClosedConn                map[uint32]int
+	Opts                           NodeOpts
+	States                         []tchannel.ChannelState
 	closeCalledEv, closeReturnedEv int64
-	closedSeen int
-	samples    []stSample
-	Dead     bool
+	closedSeen                     int
+	samples                        []stSample
+	Dead                           bool
 }
 
 func (w *World) addNode(o NodeOpts) *Node {
